@@ -33,12 +33,19 @@ static int len_(const char *w) { int k = 0; while (w[k]) k++; return k; }
 int main(void) {
 	IN_LOAD();
 	char *src = malloc(LIT_MAX + 3); ASSUME(src != 0);
+#ifdef XLIT
+	/* a token whose text the lexer defines by a pattern (e.g. '#'{2} SP): the driver supplies one concrete text and the kind */
+	size_t L = 0; const char *lit = XLIT;
+#define KIND_ XKIND
+#else
 	size_t L = 0; const char *lit = LIT_TXT[IDX];
+#define KIND_ LIT_KIND[IDX]
+#endif
 	for (size_t i = 0; i < LIT_MAX; i++) if (lit[i] && L == i) src[L++] = lit[i];
 	ASSUME(IN.after >= 'a' && IN.after <= 'z');
 	src[L] = IN.after; src[L + 1] = 0;
 	static scratch_pad sp; sp.padded = 2;
-	token *t = token_new((unsigned short) LIT_KIND[IDX], 0, L);
+	token *t = token_new((unsigned short) KIND_, 0, L);
 	DString *out = d_string_new("");
 	EXPORT(out, src, t, &sp);
 	CHECK(n <= OMAX, "harness: output fits the observation buffer");
@@ -60,7 +67,7 @@ int main(void) {
 #if defined(KF_critic_sub_tt) || defined(KF_amp_long_tt)
 	/* listed findings (each enshrined in a stored .tex expectation): the substitution markers keep their raw ~, `&amp;` is printed as \&.
 	   The instance only pins that the finding is listed for exactly these kinds */
-	CHECK(LIT_KIND[IDX] == CRITIC_SUB_OPEN || LIT_KIND[IDX] == CRITIC_SUB_DIV || LIT_KIND[IDX] == CRITIC_SUB_CLOSE || LIT_KIND[IDX] == AMPERSAND_LONG, "harness: the finding is listed for these kinds only");
+	CHECK(KIND_ == CRITIC_SUB_OPEN || KIND_ == CRITIC_SUB_DIV || KIND_ == CRITIC_SUB_CLOSE || KIND_ == AMPERSAND_LONG, "harness: the finding is listed for these kinds only");
 #else
 	CHECK(!bad, "a character reserved in LaTeX appears in a code span only in its escaped form");
 	int same = (m == (int) L); for (int k = 0; k < LIT_MAX; k++) if (k < m && k < (int) L && dec[k] != src[k]) same = 0;
